@@ -31,6 +31,7 @@ AVGLEN, MEDLEN, AVGCOST, MEDCOST, AVGAPP, MEDAPP, AVGTOT, MEDTOT, VOTES_COUNT, V
 AVGSAT, NEH, POSSAT, GINI, GINI_INV, HIST, CATPROP, PROJLOSS, EFFSUP, PROFMETH = range(40, 50)
 COHESIVE, MAXCOHESIVE, CORE, JR_APP, JR_CARD, PARTYLIST = 50, 51, 52, 53, 54, 55
 HIST_LIST, HIST_FRESH = 60, 61
+TIEBREAK = 56
 
 _NAMES = {
     GREEDY: "greedy_utilitarian_welfare", MAXW: "max_additive_utilitarian_welfare (welfare of the outcome)",
@@ -51,6 +52,7 @@ _NAMES = {
     EFFSUP: "calculate_effective_supports",
     PROFMETH: "a profile method (num_ballots, approval_score, approved_projects, is_trivial, total_score)",
     PARTYLIST: "AbstractApprovalProfile.is_party_list",
+    TIEBREAK: "a shipped tie-breaking rule (TieBreakingRule.order / untie: the ORDER of the projects)",
     HIST_LIST: "a MultiProfile edited in place (del/pop/popitem/clear/subtract/-=/&=/|=/+=/[]=/append/extend/update/"
                "setdefault) after having been queried",
     HIST_FRESH: "a MultiProfile edited in place after having been queried, against a FRESH as_multiprofile() of the same voters:",
@@ -88,7 +90,10 @@ RULE = ("elections with 1..6 projects (tie-rich cost pools: zeros, equal costs, 
         "JR checkers on <=4 voters/<=4 projects); HISTORY stream: the multiprofile is queried, then edited IN PLACE by every "
         "Counter/dict path (del, pop, popitem, clear, subtract, -=, &=, |=, +=, []=, append, extend, update, setdefault; 2..5 "
         "edits, a query after each) while the same voters are removed from / appended to the list profile, and must keep "
-        "answering like the list profile and like a fresh conversion of it; non-trivial = distinct election with >=2 distinct ballots, a multiplicity "
+        "answering like the list profile and like a fresh conversion of it; TIES stream: approval elections built so that "
+        "two projects tie inside greedy / Equal Shares (Cardinality_Sat) and Phragmen (cost proportional to approval score) "
+        "while the one with MORE voters has FEWER distinct ballots, run under app_score tie-breaking (budget admits one of the "
+        "two), plus order()/untie() of the four shipped tie-breaking rules on both objects; non-trivial = distinct election with >=2 distinct ballots, a multiplicity "
         ">=2 and at least one call whose result is not empty/zero")
 ASSUMPTIONS = [
     "hand-written Gallina models tied to the code by differential execution only",
@@ -116,13 +121,13 @@ EXC_TAGS = {"ValueError": 1, "TypeError": 2, "ZeroDivisionError": 3, "NotImpleme
 BOUNDED = {VOTES_COUNT, VOTER_FLOW}
 FLOAT_SATS = {"Additive_Cost_Sqrt_Sat", "Additive_Cost_Log_Sat", "Cost_Sqrt_Sat", "Cost_Log_Sat"}
 KINDS = ["rules", "sat", "analysis", "history", "composite", "analysis", "rules", "jr",
-         "rules", "sat", "analysis", "history", "composite", "analysis", "rules", "solver"]
+         "rules", "sat", "analysis", "history", "composite", "analysis", "ties", "solver"]
 HIST_OPS = ["del", "pop", "popitem", "clear", "subtract_map", "subtract_iter", "isub", "iand", "ior", "iadd", "set",
             "append", "extend", "update_map", "update_iter", "setdefault"]
 
 
 def budget(tier):
-    return 1440 if tier == "quick" else 8000
+    return 1120 if tier == "quick" else 8000
 
 
 # ------------------------------------------------------------------------------------------------
@@ -270,8 +275,108 @@ def _subsets(rng, n, k):
     return seen
 
 
+def _ties_election(rng):
+    """An approval election in which projects A and B are tied inside greedy/Equal Shares (Cardinality_Sat) and Phragmen
+    -- cost proportional to the approval score: same satisfaction density, same rho, same purchase time -- while A has MORE
+    supporters on FEWER distinct ballots (repeated ballots) than B, so that a tie-breaking key which forgot the
+    multiplicities would rank them the other way round; the budget lets only one of the two in (mostly)."""
+    if rng.random() < 0.35:
+        # Equal Shares variant: x voters approve both A and B; A has k further voters on ONE ballot {A}, B has dB < k further
+        # voters on dB distinct ballots.  Everybody can pay u = cost/score, so rho is u for both; after A is bought the
+        # common voters cannot pay for B any more (money per voter = u * (1 + 1/(2n))): the order decides the outcome.
+        x = rng.choice([1, 1, 2])
+        k = rng.choice([3, 4, 5])
+        dB = rng.randrange(2, k)
+        u = pb.F(rng.choice([1, 1, "1/2", 2, "2/3"]))
+        A, Bp = (0, 1) if rng.random() < 0.5 else (1, 0)
+        ballots = [sorted([A, Bp])] * x + [[A]] * k + [sorted([Bp, 2 + j]) for j in range(dB)]
+        for _ in range(rng.choice([0, 0, 1])):
+            ballots.append([])
+        nv = len(ballots)
+        budget = u * nv + u / 2
+        costs = [None, None]
+        costs[A], costs[Bp] = (x + k) * u, (x + dB) * u
+        costs += [budget + rng.choice([1, 2]) for _ in range(dB)]
+        rng.shuffle(ballots)
+        order = list(range(len(costs)))
+        rng.shuffle(order)
+        return {"costs": [pb.qs(c) for c in costs], "budget": pb.qs(budget), "order": order, "btype": "approval",
+                "ballots": ballots, "tiedpair": [A, Bp], "variant": "mes"}
+    dA = rng.choice([1, 1, 2])
+    multA = [rng.choice([2, 3, 4]) for _ in range(dA)]
+    sA = sum(multA)
+    dB = dA + rng.choice([1, 1, 2])
+    sB = rng.randrange(dB, sA) if dB < sA else None
+    if sB is None:
+        multA[0] += dB - sA + 1
+        sA = sum(multA)
+        sB = dB
+    multB = [1] * dB
+    for _ in range(sB - dB):                       # a few of B's ballots may be repeated too (still fewer voters than A)
+        multB[rng.randrange(dB)] += 1
+    nfill = max(dA, dB) + rng.choice([0, 1])       # filler projects make the ballots of one side distinct
+    u = pb.F(rng.choice([1, 1, "1/2", "1/3", 2, "3/2"]))
+    cA, cB = sA * u, sB * u
+    pos = [0, 1] if rng.random() < 0.5 else [1, 0]           # ranks of A and B: the lexicographic fallback varies
+    A, Bp = pos
+    costs = [None, None]
+    costs[A], costs[Bp] = cA, cB
+    mode = rng.randrange(4)
+    if mode == 0:
+        budget = cA                                 # exactly the dearer one (A) or B + change
+    elif mode == 1:
+        budget = cA + cB - u / 2                    # just not both
+    elif mode == 2:
+        budget = cA + cB                            # both fit: the order decides nothing (control)
+    else:
+        budget = cA + u / 3
+    fills = []
+    for _ in range(nfill):
+        fills.append(rng.choice([budget + 1, budget + u, cA * 3, cA + cB]) if rng.random() < 0.7 else rng.choice([cA * 2, u]))
+    costs += fills
+    ballots = []
+    for j in range(dA):
+        b = [A] + ([2 + j] if dA > 1 else [])
+        ballots += [sorted(b)] * multA[j]
+    for j in range(dB):
+        b = [Bp] + ([2 + j] if j > 0 or rng.random() < 0.3 else [])
+        if sorted(b) in [x for x in ballots if Bp in x] and j == 0:
+            b = [Bp]
+        ballots += [sorted(b)] * multB[j]
+    # B's ballots must be pairwise distinct
+    seenb, out = [], []
+    for b in ballots:
+        out.append(b)
+    for _ in range(rng.choice([0, 0, 1, 2])):
+        out.append(rng.choice([[], [2 + rng.randrange(nfill)]]))
+    rng.shuffle(out)
+    n = len(costs)
+    order = list(range(n))
+    rng.shuffle(order)
+    return {"costs": [pb.qs(c) for c in costs], "budget": pb.qs(budget), "order": order, "btype": "approval",
+            "ballots": out, "tiedpair": [A, Bp]}
+
+
 def gen(rng, i, tier):
     kind = KINDS[i % len(KINDS)]
+    if kind == "ties":
+        e = _ties_election(rng)
+        n = len(e["costs"])
+        e.update({"kind": "ties", "solver": False, "ask_known": False, "model": True})
+        tb = ["app_score", list(range(n))]
+        calls = [{"f": "greedy", "sat": "Cardinality_Sat", "tb": tb, "res": True, "init": []},
+                 {"f": "greedy", "sat": "Relative_Cardinality_Sat", "tb": tb, "res": True, "init": []},
+                 {"f": "greedy", "sat": "CC_Sat", "tb": tb, "res": True, "init": []},
+                 {"f": "mes", "sat": "Cardinality_Sat", "tb": tb, "res": True, "init": []},
+                 {"f": "mesiter", "sat": "Cardinality_Sat", "tb": tb, "res": True, "init": [], "inc": "1/2"},
+                 {"f": "phragmen", "tb": tb, "res": True, "init": [], "loads": None},
+                 {"f": "greedy", "sat": "Cardinality_Sat", "tb": tb, "res": False, "init": []},
+                 {"f": "phragmen", "tb": tb, "res": False, "init": [], "loads": None}]
+        for _ in range(3):
+            calls.append(_rule_call(rng, e))
+            calls[-1]["tb"] = tb
+        e["calls"] = calls
+        return e
     if kind == "jr":
         e = _election(rng, 4, 3, btypes=("approval", "approval", "cardinal", "cumulative"))
     elif kind == "solver":
@@ -597,10 +702,37 @@ def _impl(case):
         pb.install_solver_guard()
         pb.solver_reset()
 
-    if kind in ("rules", "composite"):
+    if kind in ("rules", "ties") and bt == "approval":
+        import pabutools.tiebreaking as T
+
+        for tbn in ("app_score", "lexico", "min_cost", "max_cost"):
+            rule = el.tie_breaking(tbn)
+            rev = list(reversed(projs))
+            ent.append([TIEBREAK, tbn + ".order"] + both(lambda s: vq(pb.ranks(rule.order(s.inst, s.prof, list(projs)))), sides))
+            ent.append([TIEBREAK, tbn + ".order(reversed)"] + both(lambda s: vq(pb.ranks(rule.order(s.inst, s.prof, rev))), sides))
+            ent.append([TIEBREAK, tbn + ".untie"] + both(lambda s: vq([pb.rank(rule.untie(s.inst, s.prof, list(projs)))]), sides))
+        if kind == "ties":
+            # is the constructed tie real?  (the outcome depends on which of the pair a strict order prefers)
+            from pabutools.rules import greedy_utilitarian_welfare, sequential_phragmen
+            A, Bp = case["tiedpair"]
+            n_ = len(projs)
+            pa = [A] + [r for r in range(n_) if r != A]
+            pb_ = [Bp] + [r for r in range(n_) if r != Bp]
+            real = 0
+            try:
+                from pabutools.rules import method_of_equal_shares
+                for fn, kw in ((greedy_utilitarian_welfare, {"sat_class": el.sat_class("Cardinality_Sat")}), (sequential_phragmen, {}),
+                               (method_of_equal_shares, {"sat_class": el.sat_class("Cardinality_Sat")})):
+                    r1 = sorted(pb.ranks(fn(inst, listprof, tie_breaking=el.tie_breaking("perm", pa), **kw)))
+                    r2 = sorted(pb.ranks(fn(inst, listprof, tie_breaking=el.tie_breaking("perm", pb_), **kw)))
+                    real += r1 != r2
+            except Exception:
+                pass
+            out["tie_decides_outcome"] = real
+    if kind in ("rules", "composite", "ties"):
         for c in case["calls"]:
             code = GREEDY_FLOAT if _uses_float(c) else _RULE_CODE[c["f"]]
-            if kind == "rules":
+            if kind in ("rules", "ties"):
                 ent.append([code, c["f"]] + both(lambda s: _run_rule(c, s, listprof), sides))
             else:
                 ent.append([code, c["f"]] + both(lambda s: _run_composite(c, s), sides))
@@ -908,7 +1040,7 @@ def _model_obs(case, sides):
     out = []
     kind = case["kind"]
     try:
-        if kind == "rules":
+        if kind in ("rules", "ties"):
             for k, tbn in enumerate(["lexico", "app_score", "min_cost", "max_cost"]):
                 res = sequential_phragmen(s.inst, s.prof, tie_breaking=el.tie_breaking(tbn))
                 out.append(["phragmen", k, sorted(pb.ranks(res))])
@@ -1011,7 +1143,9 @@ def stats(cases, obs):
          "nproj_hist": {}, "has_empty_ballot": 0, "has_zero_cost": 0, "fractional_costs": 0,
          "project_dearer_than_budget": 0, "irresolute_calls": 0, "irresolute_with_several_outcomes": 0,
          "calls_with_initial_allocation": 0, "model_checks": 0, "single_class_elections": 0,
-         "history_edits_by_path": {}, "history_edits_emptying_the_profile": 0}
+         "history_edits_by_path": {}, "history_edits_emptying_the_profile": 0,
+         "ties_cases": 0, "ties_cases_where_the_tie_decides_the_outcome": 0,
+         "ties_cases_order_flips_if_multiplicities_ignored": 0}
     for c, o in zip(cases, obs):
         if not isinstance(o, dict) or "entries" not in o:
             continue
@@ -1031,6 +1165,13 @@ def stats(cases, obs):
         d["fractional_costs"] += any(x.denominator != 1 for x in cs)
         d["project_dearer_than_budget"] += any(x > pb.F(c["budget"]) for x in cs)
         d["model_checks"] += len(o.get("model", []))
+        if c["kind"] == "ties":
+            d["ties_cases"] += 1
+            d["ties_cases_where_the_tie_decides_the_outcome"] += bool(o.get("tie_decides_outcome"))
+            A, Bp = c["tiedpair"]
+            sc = lambda p: sum(1 for b in c["ballots"] if p in b)
+            ds = lambda p: len({tuple(b) for b in c["ballots"] if p in b})
+            d["ties_cases_order_flips_if_multiplicities_ignored"] += (sc(A) > sc(Bp)) and (ds(A) < ds(Bp))
         if c["kind"] == "history":
             for e in o["entries"]:
                 tag, qn = e[1].split(":")
